@@ -2,7 +2,7 @@
 import json, os, re, copy
 import vlib
 
-C03_WHATS = {"removed-with-finalizers", "ready-with-finalizers", "tad-success-not-gone", "watchfor-not-first-match",
+C03_WHATS = {"tad-gave-up-on-stale-state", "removed-with-finalizers", "ready-with-finalizers", "tad-success-not-gone", "watchfor-not-first-match",
              "ctx-cancelled-spuriously", "missed-wakeup", "ctx-not-cancelled", "stale-read", "final-contents"}
 C04_WHATS = {"error-had-effect", "applied-twice", "conflict-retried-into-success", "returned-not-written",
              "returned-not-current", "noop-success-without-effect", "success-in-wrong-phase", "rmw-not-on-current", "rmw-not-on-current-aba", "mutation-lost", "ready-with-finalizers",
